@@ -32,7 +32,8 @@ class C05(Prop):
             "differs from the canonical plan (one record = one segment, in order) and application data was sent; "
             "distinct = distinct (stream digest, delivery plan digest)")
     reach = ["dup_first_segment_of_record", "dup_after_later_data", "reorder_across_record_boundary", "seq_wrap_in_record",
-             "seq_wrap_in_conn", "header_split", "one_byte_segments", "record_spans_3_segments", "dup_late", "sweep"]
+             "seq_wrap_in_conn", "header_split", "one_byte_segments", "record_spans_3_segments", "dup_late", "sweep",
+             "with_checksum_option"]
     exhaustive_note = "all 2^10 (quick) / 2^12 (thorough) cut sets of a 2-record client stream of 11 / 13 bytes at the record-handler level"
 
     def sweep_bits(self, tier):
@@ -84,7 +85,12 @@ class C05(Prop):
                     else:
                         plan["isn_" + d] = P.bits(32)
             plans.append(plan)
-        return {"prop": "C05", "mode": "plans", "conns": [conn], "tap": gen.gen_tap(R.fork("tap")), "plans": plans}
+        spec = {"prop": "C05", "mode": "plans", "conns": [conn], "tap": gen.gen_tap(R.fork("tap")), "plans": plans}
+        if R.chance(20):
+            # every simulated segment carries a correct checksum: -c must accept each of them, however the stream is cut
+            # (odd and even lengths, one byte segments)
+            spec["cli"] = {"c": True}
+        return spec
 
     def primary_spec(self, spec):
         if spec.get("mode") == "sweep" or not spec.get("plans"):
@@ -320,6 +326,8 @@ class C05(Prop):
         tcp = spec["conns"][0]["tcp"]
         fr = t["frames"]
         out.add("seg_policy", plan.get("seg_policy"))
+        if spec.get("cli", {}).get("c"):
+            out.count("reach:with_checksum_option")
         for d in "cs":
             fd = [f for f in fr if f["d"] == d]
             isn = tcp.get("isn_" + d, 0)
